@@ -77,4 +77,8 @@ func C01(c *core.Ctx) {
 	a := engb.New(c.Prog)
 	ruleBErr(c, a, func(s *engb.ErrSite) bool { return s.Callee == "go/format.Source" })
 	ruleImportSet(c)
+	// identifiers: what Identifierize makes of every class of text is a valid Go identifier (shared with C14)
+	ruleIdent(c)
+	// several files: the emitted packages compile together (no self-import, no unused or missing import, no duplicate declaration)
+	ruleMultiSel(c, ruleSet("A-TYP", "A-XPKG"), 6, "reference across two packages", "reference between two files of one package", "reference within the single default output", "two files with the same base name", "titled roots")
 }
